@@ -37,6 +37,81 @@ pub struct Ctx {
     pub tier: Tier,
     pub seed: u64,
     pub threads: usize,
+    /// run exactly one index of one slice (slice number in the high bits): used to confirm, in
+    /// a process of its own, a crash that killed the engine
+    pub only: Option<u64>,
+}
+
+// ---------------------------------------------------------------------------------
+// crashes of the subject that are not panics (a wild read behind `unsafe`, an abort): the index
+// being explored is kept per thread, a signal handler prints it and ends the process with
+// status 97; `check` then re-runs that single index in a fresh process before believing it.
+
+thread_local! {
+    static CURRENT_INDEX: std::cell::Cell<u64> = const { std::cell::Cell::new(u64::MAX) };
+}
+static mut CRASH_PREFIX: [u8; 32] = [0; 32];
+static mut CRASH_PREFIX_LEN: usize = 0;
+
+extern "C" fn on_fatal_signal(sig: libc::c_int) {
+    // only async-signal-safe calls from here on
+    let idx = CURRENT_INDEX.with(|c| c.get());
+    let mut buf = [0u8; 96];
+    let mut n = 0;
+    // SAFETY: written once before the handler is installed
+    let (pre, pre_len) = unsafe { (&*std::ptr::addr_of!(CRASH_PREFIX), CRASH_PREFIX_LEN) };
+    for &b in &pre[..pre_len] {
+        buf[n] = b;
+        n += 1;
+    }
+    let mut put_num = |mut v: u64, buf: &mut [u8; 96], n: &mut usize| {
+        let mut d = [0u8; 20];
+        let mut k = 0;
+        loop {
+            d[k] = b'0' + (v % 10) as u8;
+            v /= 10;
+            k += 1;
+            if v == 0 {
+                break;
+            }
+        }
+        while k > 0 {
+            k -= 1;
+            buf[*n] = d[k];
+            *n += 1;
+        }
+    };
+    put_num(idx, &mut buf, &mut n);
+    for &b in b" signal=" {
+        buf[n] = b;
+        n += 1;
+    }
+    put_num(sig as u64, &mut buf, &mut n);
+    buf[n] = b'\n';
+    n += 1;
+    // SAFETY: write and _exit are async-signal-safe
+    unsafe {
+        libc::write(1, buf.as_ptr() as *const libc::c_void, n);
+        libc::_exit(97);
+    }
+}
+
+pub fn install_crash_handler(id: &str) {
+    let pre = format!("\nCRASH property={id} index=");
+    // SAFETY: single-threaded at this point; the handler only reads these
+    unsafe {
+        let dst = &mut *std::ptr::addr_of_mut!(CRASH_PREFIX);
+        let n = pre.len().min(dst.len());
+        dst[..n].copy_from_slice(&pre.as_bytes()[..n]);
+        CRASH_PREFIX_LEN = n;
+        for sig in [libc::SIGSEGV, libc::SIGBUS, libc::SIGILL, libc::SIGFPE, libc::SIGABRT] {
+            let mut sa: libc::sigaction = std::mem::zeroed();
+            sa.sa_sigaction = on_fatal_signal as extern "C" fn(libc::c_int) as usize;
+            sa.sa_flags = libc::SA_ONSTACK;
+            libc::sigemptyset(&mut sa.sa_mask);
+            libc::sigaction(sig, &sa, std::ptr::null_mut());
+        }
+    }
 }
 
 /// One violation of a property clause on one concrete case.
@@ -103,9 +178,13 @@ pub fn panic_class(msg: &str) -> String {
     };
     let file = loc.rsplit('/').next().unwrap_or("");
     let file = file.split(':').next().unwrap_or("");
+    // the message of a slicing panic quotes the string it was slicing; when the subject has read
+    // past a buffer that quote is arbitrary memory, so the class stops in front of quoted data
+    let m = m.split(['`', '\'']).next().unwrap_or("");
+    let m = m.split(" of ").next().unwrap_or("");
     let mut out = String::new();
     let mut last_digit = false;
-    for c in m.chars() {
+    for c in m.chars().filter(char::is_ascii) {
         if c.is_ascii_digit() {
             if !last_digit {
                 out.push('N');
@@ -304,6 +383,15 @@ impl Run {
     where
         F: Fn(u64, &mut Local) + Sync,
     {
+        if let Some(only) = self.ctx.only {
+            if only >> 40 == slice_no && (only & ((1 << 40) - 1)) < total {
+                let mut local = Local::new(vec![]);
+                CURRENT_INDEX.with(|c| c.set(only));
+                f(only, &mut local);
+                self.merge(local);
+            }
+            return;
+        }
         let t0 = Instant::now();
         let before = (self.evals, self.nontrivial);
         let next = AtomicU64::new(0);
@@ -331,6 +419,7 @@ impl Run {
                         }
                         let hi = (lo + chunk).min(total);
                         for i in lo..hi {
+                            CURRENT_INDEX.with(|c| c.set(base + i));
                             f(base + i, &mut local);
                         }
                     }
@@ -355,11 +444,15 @@ impl Run {
     where
         F: FnOnce(u64, &mut Local),
     {
+        if self.ctx.only.is_some_and(|o| o >> 40 != slice_no) {
+            return;
+        }
         let t0 = Instant::now();
         let before = (self.evals, self.nontrivial);
         let base = slice_no << 40;
         let s = self.ctx.seed.wrapping_mul(0x9E3779B97F4A7C15);
         let mut local = Local::new(vec![base, base + 1 + (s % 7), base + 10 + (s >> 9) % 90]);
+        CURRENT_INDEX.with(|c| c.set(base));
         f(base, &mut local);
         self.merge(local);
         self.slices.push(json!({
@@ -437,21 +530,35 @@ pub fn finish(
     let mut known = 0usize;
     let mut machinery = 0usize;
     let mut viol_summaries = vec![];
+    CURRENT_INDEX.with(|c| c.set(u64::MAX));
     let viols = std::mem::take(&mut run.viols);
+    let mut seen_resig = std::collections::BTreeSet::new();
     for (sig, (_order, count, v)) in &viols {
         // determinism: the minimal case must fail again, with the same signature, when
         // re-executed on its own from its machine-readable form
         let again = recheck(&v.case);
         let reproduced = again.iter().any(|a| &a.sig == sig);
+        let mut sig = sig.clone();
         if !reproduced {
-            eprintln!(
-                "MACHINERY: violation {sig} did not reproduce from its replay case (got {:?}); case={}",
-                again.iter().map(|a| a.sig.clone()).collect::<Vec<_>>(),
-                v.case
-            );
-            machinery += 1;
-            continue;
+            match again.first() {
+                // the case violates the property again, but is classified differently this time
+                // (a subject that reads stray memory answers differently from run to run): still
+                // a violation of this case, reported under what the re-execution saw
+                Some(a) => {
+                    eprintln!("note: {sig} re-executed as {}; reporting the latter", a.sig);
+                    sig = a.sig.clone();
+                    if !seen_resig.insert(sig.clone()) || viols.contains_key(&sig) {
+                        continue;
+                    }
+                }
+                None => {
+                    eprintln!("MACHINERY: violation {sig} did not reproduce from its replay case; case={}", v.case);
+                    machinery += 1;
+                    continue;
+                }
+            }
         }
+        let sig = &sig;
         let kf = findings
             .iter()
             .find(|f| f.kind == "known" && f.property == id && &f.signature == sig);
@@ -527,7 +634,9 @@ pub fn finish(
         "known_findings": known,
     });
     let epath = format!("{root}/evidence/{id}.json");
-    if let Err(e) = std::fs::write(&epath, serde_json::to_string_pretty(&evidence).unwrap() + "\n") {
+    if run.ctx.only.is_some() {
+        // a single-index confirmation run describes nothing: the evidence file stays as it is
+    } else if let Err(e) = std::fs::write(&epath, serde_json::to_string_pretty(&evidence).unwrap() + "\n") {
         eprintln!("MACHINERY: cannot write {epath}: {e}");
         return 2;
     }
@@ -545,10 +654,11 @@ pub fn finish(
         wall,
         run.exhaustive
     );
-    if machinery > 0 {
-        2
-    } else if unknown > 0 {
+    // a confirmed violation is the verdict even if some other case could not be confirmed
+    if unknown > 0 {
         1
+    } else if machinery > 0 {
+        2
     } else {
         0
     }
